@@ -190,27 +190,42 @@ def r_bound(prog, R):
     size = {fl["n"]: fl.get("arr") for fl in rec["fields"]}
     dst = size.get("server")
     r.require(dst is not None, "ares_cookie_t.server is not an array")
-    gates = {}
-    upper = None
-    for bid in f.rpo():
-        br = f.branch(bid)
-        if br:
-            c0 = strip(br[0])
-            if c0.get("k") == "bin" and c0["op"] in (">", ">=") and is_var(c0["l"], "resp_cookie_len") and const_val(c0["r"]) is not None and const_val(c0["r"]) > 8:
-                gates["len-upper"] = (bid, br[2])
-                upper = const_val(c0["r"]) if c0["op"] == ">" else const_val(c0["r"]) - 1
-    if not r.require(upper is not None, "no upper bound test on resp_cookie_len"):
+    import evalx
+    # the lengths that get past the length filter right behind the fetch (exact evaluation of that fragment for every length)
+    start = None
+    for b0, i0, el0 in f.elements():
+        if el0["k"] == "asg" and is_var(strip(el0["e"]["l"]), "resp_cookie"):
+            start = b0
+    if not r.require(start is not None, "resp_cookie fetch not found"):
         return
-    at = flow_with_gates(f, gates, null_vars=("resp_cookie", "req_cookie"))
-    # server_len = resp_cookie_len - K
+    accepted = []
+    try:
+        for n_ in range(0, 1024):
+            env = {"resp_cookie": 1, "resp_cookie_len": n_}
+            br0 = f.branch(start)
+            if br0:
+                bid0 = br0[1] if evalx.ev(evalx._leafify(strip(br0[0])), env) else br0[2]
+            else:
+                bid0 = [x for x in start.succs if x is not None][0]
+            kind, x = evalx.run_cfg(f, env, start=bid0)
+            if not (kind == "ret" and name_of_const(x.get("e")) not in (None, "ARES_SUCCESS")):
+                accepted.append(n_)
+    except evalx.Unknown as e:
+        r.broke("cookie length filter not interpretable: %s" % e)
+        return
+    upper = max(accepted) if accepted else 0
+    if upper >= 1023:
+        r.viol("server_len-bounded", f.name, f.loc(start.els[-1] if start.els else f.ln), "no response cookie length is rejected unconditionally right after the option is fetched (the length filter depends on something else, or is gone): the server-cookie copy is not bounded by its %d-byte destination on every path" % dst)
+        return
+    doms = f.dominators()
+    rewrites = [el for _, _, el in f.elements() if el["k"] == "asg" and is_var(strip(el["e"]["l"]), "resp_cookie_len")]
     sub = None
     for b, i, el in f.elements():
         if el["k"] == "asg" and is_field(el["e"]["l"], "server_len") and el["e"]["op"] == "=":
             rr = strip(el["e"]["r"])
             if rr.get("k") == "bin" and rr["op"] == "-" and is_var(rr["l"], "resp_cookie_len") and const_val(rr["r"]) is not None:
                 sub = const_val(rr["r"])
-                bad = [st for st in at.get((b.id, i), ()) if "len-upper" not in st[0]]
-                if bad:
+                if not (start.id == b.id or start.id in doms.get(b.id, ())) or rewrites:
                     r.viol("server_len-bounded", f.name, f.loc(el), "server_len assigned on a path where resp_cookie_len was not bounded")
                 elif upper - sub > dst:
                     r.viol("server_len-bounded", f.name, f.loc(el), "server cookie of up to %d bytes copied into a %d-byte field" % (upper - sub, dst))
